@@ -423,7 +423,9 @@ fn run_script(seed: u64, n: u64, ev: &mut Evidence) {
                         // try_send fails: the call reports it and the callback fires with Shutdown
                         let o = submit(&ch, *style, 1, Duration::from_millis(*timeout_ms), &req, slot).await;
                         outcomes.push(o);
-                        model.decided[id] = Some(vec!["shutdown"]);
+                        // gone: Shutdown is the truth. Full queue with the task alive: any error is
+                        // acceptable, Shutdown is the recorded known finding
+                        model.decided[id] = Some(if gone { vec!["shutdown"] } else { vec!["FFI_REFUSED_WHILE_ALIVE"] });
                         settle().await;
                         continue;
                     }
@@ -649,6 +651,15 @@ fn run_script(seed: u64, n: u64, ev: &mut Evidence) {
             continue;
         }
         let got = real[0].res.class();
+        if allowed.contains(&"FFI_REFUSED_WHILE_ALIVE") {
+            if got == "ok" {
+                ev.violation("ffi_refused_call_completed_ok".to_string(), format!("request #{id}: FfiChannel refused the call (queue full) but the callback reported success"), rep.clone());
+            } else if got == "shutdown" {
+                ffi_refused_reports_shutdown(ev, FFI_REFUSED_SIG_FULL, "queue full");
+            }
+            ev.class(format!("{}|refused_queue_full|{}", style.name(), got));
+            continue;
+        }
         let ok = allowed.iter().any(|a| *a == got || (*a == "ANY_CONNECTED" && ["ok", "timeout", "io", "bad_frame", "bad_response", "exception"].contains(&got.as_str())));
         if !ok {
             ev.violation(
@@ -736,16 +747,26 @@ fn run_backpressure(seed: u64, n: u64, ev: &mut Evidence) {
             let _ = tokio::time::timeout(Duration::from_secs(7200), s.wait()).await;
         }
         settle().await;
+        // a call FfiChannel refuses for its range (126 registers), with the task alive and idle
+        let mut bad_res = vec![];
+        for breq in [ClientReq::Read { kind: Kind::ReadHolding, start: 0, count: 126 }, ClientReq::Read { kind: Kind::ReadCoils, start: 0, count: 2001 }] {
+            let bad = Slot::new(start, seq.clone());
+            let _ = submit(&channel, Style::Ffi, 1, Duration::from_secs(10), &breq, bad.clone()).await;
+            settle().await;
+            // only completions made by the library's callback count (the harness marks a refused call itself)
+            let c: Vec<Completion> = bad.completions.lock().unwrap().iter().filter(|c| !matches!(c.res, Res::Rejected(_))).cloned().collect();
+            bad_res.push(c);
+        }
         drop(channel);
         let _ = tokio::time::timeout(Duration::from_secs(3600), task).await;
         let comps: Vec<Vec<Completion>> = slots.iter().map(|s| s.completions.lock().unwrap().clone()).collect();
         let o = outcomes.lock().unwrap().clone();
         let seen = seen.lock().unwrap().clone();
-        (comps, o, seen)
+        (comps, o, seen, bad_res)
     });
     ev.eval();
     let rep = json!({"backpressure": true, "n": n, "queue": cap, "styles": styles.iter().map(|s| s.name()).collect::<Vec<_>>(), "delays": delays});
-    let (comps, outcomes, seen) = match result {
+    let (comps, outcomes, seen, bad_res) = match result {
         Err(p) => {
             ev.violation(format!("client_panic:{}", crate::util::panic_site(&p)), format!("client panicked: {p}"), rep);
             return;
@@ -753,6 +774,15 @@ fn run_backpressure(seed: u64, n: u64, ev: &mut Evidence) {
         Ok(x) => x,
     };
     ev.count("backpressure_sessions", 1);
+    for (what, bad_res) in ["126 registers", "2001 coils"].iter().zip(bad_res.iter()) {
+        ev.count("ffi_refused_for_range_checked", 1);
+        match bad_res.len() {
+            1 if bad_res[0].res.class() == "shutdown" => ffi_refused_reports_shutdown(ev, FFI_REFUSED_SIG_RANGE, what),
+            1 if bad_res[0].res.class() == "ok" => ev.violation("backpressure:ffi_bad_range_completed_ok".to_string(), format!("a read of {what} through FfiChannel completed Ok"), rep.clone()),
+            1 => {}
+            n => ev.violation(format!("backpressure:ffi_bad_range_callback_invoked_{n}_times"), format!("a read of {what} through FfiChannel was refused by the call and its callback was invoked {n} times"), rep.clone()),
+        }
+    }
     let mut accepted = 0usize;
     for k in 0..nreq {
         ev.count("requests_tracked", 1);
@@ -769,8 +799,11 @@ fn run_backpressure(seed: u64, n: u64, ev: &mut Evidence) {
         let got = comps[k][0].res.clone();
         if refused {
             ev.count("backpressure_ffi_refused_queue_full", 1);
-            if got.class() != "shutdown" {
-                ev.violation(format!("backpressure:ffi_refused_but_{}", got.class()), format!("FfiChannel refused request #{k} but its callback got {got:?}"), rep.clone());
+            if got.class() == "shutdown" {
+                ffi_refused_reports_shutdown(ev, FFI_REFUSED_SIG_FULL, "queue full");
+            }
+            if got.class() == "ok" {
+                ev.violation("backpressure:ffi_refused_but_ok".to_string(), format!("FfiChannel refused request #{k} but its callback got {got:?}"), rep.clone());
             }
             if seen.contains(&(k as u16)) {
                 ev.violation("backpressure:refused_request_transmitted", format!("request #{k} was refused by FfiChannel and transmitted anyway"), rep.clone());
@@ -801,6 +834,110 @@ fn run_backpressure(seed: u64, n: u64, ev: &mut Evidence) {
     }
     if nreq > cap + 1 {
         ev.count("backpressure_sessions_exceeding_queue", 1);
+    }
+}
+
+/// The peer stops reading: writes to the transport never complete. Requests must still complete
+/// (each within its own timeout, with an error), the queue behind them must move, and disable /
+/// shutdown / dropping the handles must still take effect.
+fn run_peer_stops_reading(seed: u64, n: u64, ev: &mut Evidence) {
+    let mut rng = Rng::sub(seed, 1011, n);
+    let nreq = 1 + rng.usize_below(4);
+    let styles: Vec<Style> = (0..nreq).map(|_| *rng.pick(&ALL_STYLES_API)).collect();
+    let timeouts: Vec<u64> = (0..nreq).map(|_| *rng.pick(&[20u64, 100, 500, 2000])).collect();
+    let ending = *rng.pick(&["shutdown", "drop_handles", "disable_then_shutdown"]);
+    let framing = if rng.chance(1, 3) { Framing::Rtu } else { Framing::Mbap };
+    let (styles2, timeouts2) = (styles.clone(), timeouts.clone());
+    let result = run_paused(|| async move {
+        let seq = Seq::default();
+        let (io, handle) = sim_io(vec![], seq.clone());
+        handle.set_write_blocked(true);
+        let rf = match framing {
+            Framing::Mbap => rodbus::verif::Framing::Mbap,
+            Framing::Rtu => rodbus::verif::Framing::Rtu,
+        };
+        let (channel, mut sim) = rodbus::verif::client(rf, 8, decode_level((0, 0, 0)), None);
+        let task = tokio::spawn(async move {
+            let first = sim.run_session(Box::new(io)).await;
+            // afterwards the channel is "down": requests fail fast until the handles go away
+            let _ = sim.fail_requests_for(Duration::from_secs(100_000)).await;
+            first
+        });
+        channel.enable().await.unwrap();
+        let start = tokio::time::Instant::now();
+        let slots: Vec<Arc<Slot>> = (0..nreq).map(|_| Slot::new(start, seq.clone())).collect();
+        for k in 0..nreq {
+            let req = ClientReq::Read { kind: Kind::ReadHolding, start: k as u16, count: 2 };
+            let _ = submit(&channel, styles2[k], 1, Duration::from_millis(timeouts2[k]), &req, slots[k].clone()).await;
+        }
+        // every request gets its own timeout, one after the other, and some slack
+        let budget: u64 = timeouts2.iter().sum::<u64>() + 1000;
+        tokio::time::sleep(Duration::from_millis(budget)).await;
+        settle().await;
+        let done_in_time: Vec<usize> = slots.iter().map(|s| s.count()).collect();
+        let t_cmd = tokio::time::Instant::now();
+        match ending {
+            "shutdown" => {
+                let _ = channel.shutdown().await;
+                drop(channel);
+            }
+            "disable_then_shutdown" => {
+                let _ = channel.disable().await;
+                let _ = channel.shutdown().await;
+                drop(channel);
+            }
+            _ => drop(channel),
+        }
+        let ended = tokio::time::timeout(Duration::from_secs(3600), task).await.is_ok();
+        let took = t_cmd.elapsed();
+        let comps: Vec<Vec<Completion>> = slots.iter().map(|s| s.completions.lock().unwrap().clone()).collect();
+        (done_in_time, comps, ended, took, handle.out_bytes().len())
+    });
+    ev.eval();
+    ev.count("peer_stops_reading_sessions", 1);
+    let rep = json!({"peer_stops_reading": true, "n": n, "framing": framing.name(), "styles": styles.iter().map(|s| s.name()).collect::<Vec<_>>(), "timeouts_ms": timeouts, "ending": ending});
+    match result {
+        Err(p) => ev.violation(format!("peer_stops_reading:panic:{}", crate::util::panic_site(&p)), format!("client panicked: {p}"), rep),
+        Ok((done, comps, ended, took, written)) => {
+            ev.count("requests_tracked", nreq as u64);
+            for k in 0..nreq {
+                if done[k] != 1 {
+                    ev.violation(
+                        format!("peer_stops_reading:request_pending_after_its_timeout:{}", styles[k].name()),
+                        format!("request #{k} of {nreq} (timeout {} ms) had {} completions {} ms after submission although the peer accepts no bytes (bytes written: {written})", timeouts[k], done[k], timeouts.iter().sum::<u64>() + 1000),
+                        rep.clone(),
+                    );
+                } else if comps[k][0].res.is_ok() {
+                    ev.violation("peer_stops_reading:ok_without_transmission".to_string(), format!("request #{k} completed Ok: {:?}", comps[k][0].res), rep.clone());
+                } else {
+                    ev.class(format!("peer_stops_reading|{}|{}", styles[k].name(), comps[k][0].res.class()));
+                }
+                if comps[k].len() > 1 {
+                    ev.violation(format!("peer_stops_reading:completed_{}_times", comps[k].len()), format!("request #{k} completed {} times", comps[k].len()), rep.clone());
+                }
+            }
+            if !ended || took > Duration::from_secs(10) {
+                ev.violation(
+                    format!("peer_stops_reading:{ending}_not_honoured"),
+                    format!("{ending} with the peer not reading: session ended={ended} after {took:?} of virtual time"),
+                    rep,
+                );
+            }
+        }
+    }
+}
+
+/// Known finding (known_findings.txt): a call through `FfiChannel` that is refused synchronously (queue
+/// full, range beyond the protocol limit) drops its promise, so the callback reports `Shutdown`
+/// although the task is alive - C10 says "shutdown only when the task is gone". Reported once per
+/// evidence object under a fixed signature; every observation is counted.
+pub const FFI_REFUSED_SIG_FULL: &str = "ffi:refused_at_full_queue:callback=shutdown:task_alive";
+pub const FFI_REFUSED_SIG_RANGE: &str = "ffi:refused_for_its_range:callback=shutdown:task_alive";
+fn ffi_refused_reports_shutdown(ev: &mut Evidence, sig: &str, what: &str) {
+    ev.count("ffi_refused_calls_reporting_shutdown_while_task_alive", 1);
+    if !ev.violations.iter().any(|v| v.sig == sig) {
+        ev.violation(sig, format!("FfiChannel call refused ({what}) while the task is alive: the call returns an error and the callback reports Shutdown"), json!({"known_finding": true}));
+        // (violation() counted an observation; the dedicated counter above is the exact one)
     }
 }
 
@@ -854,6 +991,9 @@ pub fn run(args: &Args) -> i32 {
     let scripts = args.tier.pick(400_000u64, 12_000_000);
     let mut ev = Evidence::new();
     for p in parallel(args.jobs, scripts, Evidence::new, |n, ev| run_script(seed, n, ev)) {
+        ev.merge(p);
+    }
+    for p in parallel(args.jobs, args.tier.pick(6_000u64, 150_000), Evidence::new, |n, ev| run_peer_stops_reading(seed, n, ev)) {
         ev.merge(p);
     }
     let bp = args.tier.pick(40_000u64, 1_000_000);
